@@ -77,8 +77,8 @@ CHECKS = {
                  args=dict(quick=["-c10.stall=20s"], thorough=[])),
             dict(name="burst-race", run="TestC10Burst", race=True, checks=dict(quick=250, thorough=3000), shards=dict(quick=1, thorough=4),
                  args=dict(quick=["-c10.burstname=burst-race", "-c10.stall=20s"], thorough=["-c10.burstname=burst-race"])),
-            dict(name="pair", run="TestC10Pair", checks=dict(quick=60, thorough=300), shards=dict(quick=4, thorough=8),
-                 args=dict(quick=["-c10.pairrounds=20000", "-c10.stall=20s"], thorough=["-c10.pairrounds=40000"])),
+            dict(name="pair", run="TestC10Pair", checks=dict(quick=36, thorough=300), shards=dict(quick=5, thorough=8),
+                 args=dict(quick=["-c10.pairrounds=15000", "-c10.stall=20s"], thorough=["-c10.pairrounds=40000"])),
             # the pair machinery on another family: accessors (Children, IsBranch, Value, String, visits, lookups through / on retained sub-tree nodes,
             # the Reset idiom) against the root's transitions (emptying deletes, first Add into an empty tree, refill, queued deleters)
             dict(name="pair-access", run="TestC10PairAccess", checks=dict(quick=40, thorough=300), shards=dict(quick=2, thorough=8),
